@@ -9,6 +9,8 @@ import Driver.Info
 import Driver.Signal
 import Driver.FlacC
 import Driver.OpenFile
+import Driver.Id3Date
+import Driver.Dict
 open Driver
 
 def dispatch (line : String) : String :=
@@ -26,6 +28,8 @@ def dispatch (line : String) : String :=
     | "sig" => sigOp a
     | "flacc" => flaccOp a
     | "open" => openOp a
+    | "id3date" => id3dateOp a
+    | "dict" => dictOp a
     | "flacinfo" => flacInfoOp a
     | "ping" => "pong"
     | _ => "bad-op"
